@@ -292,9 +292,11 @@ Proof.
       - exists (SigNode false). eexists. split; [reflexivity|]. cbn [Model.step]. rewrite Eq, Er. reflexivity.
       - destruct (st (nd s q0)) eqn:Est;
           try (exists (SigNode false); eexists; split; [reflexivity|]; cbn [Model.step]; rewrite Eq, Er, Est; reflexivity).
-        destruct (0 <? att (nd s q0)) eqn:Ea.
-        + exists (SigNode true). eexists. split; [reflexivity|]. cbn [Model.step]. rewrite Eq, Er, Est, Ea. reflexivity.
-        + exists (SigNode false). eexists. split; [reflexivity|]. cbn [Model.step]. rewrite Eq, Er, Est, Ea. reflexivity. }
+        + destruct (0 <? att (nd s q0)) eqn:Ea.
+          * exists (SigNode true). eexists. split; [reflexivity|]. cbn [Model.step]. rewrite Eq, Er, Est, Ea. reflexivity.
+          * exists (SigNode false). eexists. split; [reflexivity|]. cbn [Model.step]. rewrite Eq, Er, Est, Ea. reflexivity.
+        + exists (SigNode (match ph (nd s q0) with PExec => true | _ => false end)). eexists. split; [reflexivity|].
+          cbn [Model.step]. rewrite Eq, Er, Est. rewrite Bool.eqb_reflx. reflexivity. }
   destruct (pc s) as [|i| |todo cur|] eqn:Ep.
   - (* LHead *)
     destruct (canceled s || all_terminal c s) eqn:Ex.
@@ -362,9 +364,7 @@ Proof.
       * exists (HSkip h). eexists. split; [reflexivity|]. cbn [Model.step]. rewrite Ep, Ed.
         assert (handler_eqb h h = true) as -> by (destruct h; reflexivity). reflexivity.
       * assert (handler_eqb h h = true) as Hh by (destruct h; reflexivity).
-        destruct (timedout s) eqn:Et.
-        -- exists (HRefused h). eexists. split; [reflexivity|]. cbn [Model.step]. rewrite Ep, Ed, Et, Hh. reflexivity.
-        -- exists (HStart h). eexists. split; [reflexivity|]. cbn [Model.step]. rewrite Ep, Ed, Et, Hh. reflexivity.
+        exists (HStart h). eexists. split; [reflexivity|]. cbn [Model.step]. rewrite Ep, Ed, Hh. reflexivity.
   - congruence.
 Qed.
 
